@@ -41,10 +41,13 @@ InputNames == {"a", "b", "value_1", "value_2", "value_3", "zz"}
 \*        outlit(n, v): output n = v               evalerr: w = nosuch
 \*        parseerr: output = 3                     nonportable: output f = x => x + q
 \*        refs(n): output n = [#a, inputs.a, #zz, inputs.zz]
+\*        refsdo(n): output n = do { inputs = {a: 9}  return [#a, inputs.a, #zz] }      (a block-local `inputs`)
+\*        refsfn(n): output n = (inputs => [#a, inputs.a, #zz])({a: 9})                (a parameter named `inputs`)
 S(k, n, x) == [k |-> k, n |-> n, x |-> x]
 StmtPool == {S("outin", "x", "a"), S("outin", "y", "b"), S("outref", "z", "b"), S("outin", "v", "value_1"), S("outref", "u", "value_2"),
              S("bind", "y", 5), S("bind", "x", 6), S("out", "y", 0), S("out", "x", 0), S("outlit", "x", 1), S("outlit", "w", 2),
-             S("evalerr", "", 0), S("parseerr", "", 0), S("nonportable", "f", 0), S("refs", "r", 0), S("plain", "", 0)}
+             S("evalerr", "", 0), S("parseerr", "", 0), S("nonportable", "f", 0), S("refs", "r", 0), S("plain", "", 0),
+             S("refsdo", "r", 0), S("refsfn", "v", 0)}
 OutNames == {"x", "y", "z", "v", "u", "w", "f", "r"}
 Modes == {"inline", "file", "evaluate", "outfile"}
 
@@ -99,6 +102,8 @@ Effect(st) ==
     [] st.k = "outref" -> bindout(st.n, In(st.x))                    \* #name always equals inputs.name
     [] st.k = "outlit" -> bindout(st.n, IntV(st.x))
     [] st.k = "refs"   -> bindout(st.n, ListV(<<In("a"), In("a"), In("zz"), In("zz")>>))
+    \* #name is inputs.name for whatever `inputs` means at that place
+    [] st.k \in {"refsdo", "refsfn"} -> bindout(st.n, ListV(<<IntV(9), IntV(9), NullV>>))
     [] st.k = "bind"   -> IF bound(st.n) THEN [ok |-> FALSE, env |-> env, outs |-> outs]
                           ELSE [ok |-> TRUE, env |-> [env EXCEPT ![st.n] = IntV(st.x)], outs |-> outs]
     [] st.k = "out"    -> IF bound(st.n) THEN [ok |-> TRUE, env |-> env, outs |-> Append(outs, <<st.n, env[st.n]>>)]
